@@ -456,6 +456,17 @@ func (c *Checker) checkStructDecl(node *a.Node) error {
 	c.unsortedStructs = append(c.unsortedStructs, n)
 	setPlaceholderMBoundsMType(n.AsNode())
 
+	if !n.Classy() && (len(n.Implements()) > 0) {
+		// The vtables live next to the magic value, which only a "struct foo?"
+		// has (and interface methods are public).
+		return &Error{
+			Err: fmt.Errorf("check: struct %q implements an interface but is not declared with a question mark (%q)",
+				qid.Str(c.tm), qid.Str(c.tm)+"?"),
+			Filename: n.Filename(),
+			Line:     n.Line(),
+		}
+	}
+
 	// Add entries to c.unseenInterfaceImpls that later stages remove, checking
 	// that the concrete type (in this package) actually implements the
 	// interfaces that it claims to.
@@ -667,9 +678,29 @@ func (c *Checker) checkFuncSignature1(node *a.Node, banCPUArchTypes bool) error 
 		t.IDCoroutineResumed: typeExprBool,
 	}
 	if qqid[1] != 0 {
-		if _, ok := c.structs[t.QID{qqid[0], qqid[1]}]; !ok {
+		s, ok := c.structs[t.QID{qqid[0], qqid[1]}]
+		if !ok {
 			return &Error{
 				Err:      fmt.Errorf("check: no receiver struct defined for function %s", qqid.Str(c.tm)),
+				Filename: n.Filename(),
+				Line:     n.Line(),
+			}
+		}
+		// Only a struct declared with a question mark ("struct foo?") carries
+		// the per-object bookkeeping that the generated code for these
+		// methods relies on: the magic value that public methods check, the
+		// suspension state of coroutines and the function pointers of choosy
+		// methods.
+		if !s.Classy() && (n.Public() || n.Effect().Coroutine() || n.Choosy()) {
+			what := "choosy"
+			if n.Public() {
+				what = "public"
+			} else if n.Effect().Coroutine() {
+				what = "a coroutine"
+			}
+			return &Error{
+				Err: fmt.Errorf("check: func %s is %s but its receiver struct %q is not declared with a question mark (%q)",
+					qqid.Str(c.tm), what, qqid[1].Str(c.tm), qqid[1].Str(c.tm)+"?"),
 				Filename: n.Filename(),
 				Line:     n.Line(),
 			}
